@@ -53,7 +53,7 @@ claimed.update({
 claimed.update({
  "C08": dict(level="exploration", ref="§5 C08",
    text="Generated frame sequences (H.264+AAC / H.265; IDR/IRAP, P, SEI, in-band parameter sets; 1 byte to 70 KiB; DTS bases 0, 1e6 s, just below 2^31 and 2^32 ms; PTS-DTS in {0,+80,-40} ms; audio older than the first video tag) pushed through the real flv.Muxer goroutine, stream FLV cache and the real HTTP-FLV handler/flv.Writer to 1-2 viewers joining at tape-chosen frames, with close-while-writing; an independent FLV+AMF0 reader checks header and type flags, PreviousTagSize chaining, metadata / decoder configuration (built from the actual parameter sets) / AAC configuration before media, one length-prefixed NAL per video tag equal to the source, key flag, audio payload, rebased timestamps and composition offsets.",
-   note="Trusted: the FLV/AMF0/avcC/hvcC reader in harness/oracle (written from the Adobe FLV and ISO 14496-15 layouts). Frames enter at media.Stream.WriteFrame (the RTP demuxer in front is C06's subject); the input dimension is sampled, simulation adds join point, goroutine interleaving and close-while-writing. WebSocket-FLV: see DESIGN.md. The rtp-inband-params family applies the same strict header-order and metadata rules to streams whose SDP names no parameter sets."),
+   note="Trusted: the FLV/AMF0/avcC/hvcC reader in harness/oracle (written from the Adobe FLV and ISO 14496-15 layouts). Frames enter at media.Stream.WriteFrame (the RTP demuxer in front is C06's subject); the input dimension is sampled, simulation adds join point, goroutine interleaving and close-while-writing. WebSocket-FLV: see DESIGN.md. The rtp-inband-params family applies the same strict header-order and metadata rules to streams whose SDP names no parameter sets. One audio frame in six begins with bytes that look like an ADTS sync word; before a run another stream with the other track layout may be watched."),
 })
 claimed.update({
  "C07": dict(level="fault_enumeration", ref="§5 C07",
